@@ -9,6 +9,7 @@ of slots the printer writes (−1 for an ASCII variable).
 -/
 import SecsModel.Proofs.Wire
 import SecsModel.Props.C02
+import SecsModel.Props.C12
 import SecsModel.Model.Print
 namespace Secs.C16
 open Secs
@@ -137,6 +138,260 @@ theorem size_eq_printed : ∀ t : Tmpl, t.size =
   | .int _ xs => by simp [Tmpl.size, (printed_names intDec xs).1]
   | .uint _ xs => by simp [Tmpl.size, (printed_names decDigits xs).1]
   | .float w xs => by simp [Tmpl.size, (printed_names (FloatLib.fmtG w) xs).1]
+
+/-! ### the whole tree: the variable list occurs, in order, in the printed form -/
+
+-- no array item and no ASCII variable carries an ellipsis name (guaranteed by the factories)
+mutual
+def leafNamesPlain : Tmpl → Bool
+  | .list xs => leafNamesPlainS xs
+  | .asciiVar n _ _ => !isEllipsis n
+  | .binary xs => (slotVars xs).all (fun n => !isEllipsis n)
+  | .boolean xs => (slotVars xs).all (fun n => !isEllipsis n)
+  | .int _ xs => (slotVars xs).all (fun n => !isEllipsis n)
+  | .uint _ xs => (slotVars xs).all (fun n => !isEllipsis n)
+  | .float _ xs => (slotVars xs).all (fun n => !isEllipsis n)
+  | _ => true
+def leafNamesPlainS : Slots → Bool
+  | .nil => true
+  | .item t r => leafNamesPlain t && leafNamesPlainS r
+  | .var _ r => leafNamesPlainS r
+end
+
+/-- the names occur in the text in this order, one after the other (disjoint occurrences) -/
+inductive Occurs : List Bytes → Bytes → Prop
+  | nil (text : Bytes) : Occurs [] text
+  | cons (n : Bytes) (ns : List Bytes) (pre rest : Bytes) : Occurs ns rest → Occurs (n :: ns) (pre ++ n ++ rest)
+
+theorem Occurs.prepend {ns : List Bytes} {text : Bytes} (pre : Bytes) (h : Occurs ns text) : Occurs ns (pre ++ text) := by
+  cases h with
+  | nil => exact .nil _
+  | cons n ns p rest hr =>
+    have : pre ++ (p ++ n ++ rest) = (pre ++ p) ++ n ++ rest := by simp
+    rw [this]; exact .cons n ns _ rest hr
+
+theorem Occurs.extend {ns : List Bytes} {text : Bytes} (suf : Bytes) (h : Occurs ns text) : Occurs ns (text ++ suf) := by
+  induction h with
+  | nil => exact .nil _
+  | cons n ns p rest _ ih =>
+    have : p ++ n ++ rest ++ suf = p ++ n ++ (rest ++ suf) := by simp
+    rw [this]; exact .cons n ns p _ ih
+
+theorem Occurs.append {a b : List Bytes} {x y : Bytes} (ha : Occurs a x) (hb : Occurs b y) : Occurs (a ++ b) (x ++ y) := by
+  induction ha with
+  | nil text => exact hb.prepend text
+  | cons n ns p rest _ ih =>
+    have : p ++ n ++ rest ++ y = p ++ n ++ (rest ++ y) := by simp
+    rw [this]; exact .cons n _ p _ ih
+
+/-- how a variable name is written: an ellipsis as `...`, any other name as it is -/
+def shown (n : Name) : Bytes := if isEllipsis n then str "..." else n
+
+theorem occurs_slots {α} (f : α → Bytes) (xs : List (Slot α)) :
+    Occurs (slotVars xs) (joinSp (printSlots f xs)) := by
+  induction xs with
+  | nil => exact .nil _
+  | cons x r ih =>
+    cases x with
+    | val a =>
+      cases hr : printSlots f r with
+      | nil =>
+        have : slotVars r = [] := by
+          cases r with
+          | nil => rfl
+          | cons y ys => cases y <;> simp [printSlots] at hr
+        simp only [slotVars, this]
+        exact .nil _
+      | cons y ys =>
+        simp only [printSlots, slotVars, hr, joinSp]
+        rw [hr] at ih
+        have : f a ++ 32 :: joinSp (y :: ys) = (f a ++ [32]) ++ joinSp (y :: ys) := by simp
+        rw [this]
+        exact ih.prepend _
+    | var n =>
+      cases hr : printSlots f r with
+      | nil =>
+        have : slotVars r = [] := by
+          cases r with
+          | nil => rfl
+          | cons y ys => cases y <;> simp [printSlots] at hr
+        simp only [printSlots, slotVars, hr, joinSp, this]
+        have h := Occurs.cons n [] [] [] (.nil _)
+        simpa using h
+      | cons y ys =>
+        simp only [printSlots, slotVars, hr, joinSp]
+        rw [hr] at ih
+        have h := Occurs.cons n _ [] (32 :: joinSp (y :: ys)) (ih.prepend [32])
+        simpa using h
+
+theorem occurs_array {α} (ty : Bytes) (f : α → Bytes) (xs : List (Slot α)) :
+    Occurs (slotVars xs) (printArray ty f xs) := by
+  unfold printArray
+  split
+  · rename_i h
+    have : xs = [] := by simpa using h
+    subst this
+    exact .nil _
+  · exact ((occurs_slots f xs).prepend _).extend _
+
+/-- names of array items and ASCII variables are never ellipses (only a list's own slot can be) -/
+theorem shown_of_not_ellipsis (n : Name) (h : isEllipsis n = false) : shown n = n := by simp [shown, h]
+
+theorem map_shown_plain (ns : List Name) (h : ns.all (fun n => !isEllipsis n) = true) : ns.map shown = ns := by
+  induction ns with
+  | nil => rfl
+  | cons n r ih =>
+    simp only [List.all_cons, Bool.and_eq_true, Bool.not_eq_true'] at h
+    simp [shown, h.1, ih h.2]
+
+mutual
+/-- **Printed order.** For every tree, the variable list — every name once (`vars_nodup`), an
+ellipsis written as `...` — occurs in this order in the printed form. Stated for the trees in
+which no array item or ASCII variable carries an ellipsis name, which the factories guarantee
+(`isValidVarName` excludes it). -/
+theorem printed_order (level : Nat) : ∀ t : Tmpl, leafNamesPlain t = true →
+    Occurs (t.vars.map shown) (t.printAt level)
+  | .list xs, h => by
+    simp only [Tmpl.printAt, Tmpl.vars]
+    split
+    · rename_i h0
+      have : xs.vars = [] := by
+        cases xs with
+        | nil => rfl
+        | item t r => simp [Slots.len] at h0
+        | var n r => simp [Slots.len] at h0
+      rw [this]; exact .nil _
+    · exact (((printed_order_slots level xs (by simpa [leafNamesPlain] using h)).prepend _).extend _).extend _
+  | .ascii s, _ => .nil _
+  | .asciiVar n mn mx, h => by
+    simp only [Tmpl.printAt, Tmpl.vars, List.map]
+    rw [shown_of_not_ellipsis n (by simpa [leafNamesPlain] using h)]
+    have := Occurs.cons n [] (str "<A" ++ printSizeBounds mn mx ++ [32]) [62] (.nil _)
+    simpa using this
+  | .binary xs, h => by
+    simp only [Tmpl.printAt, Tmpl.vars]; rw [map_shown_plain _ (by simpa [leafNamesPlain] using h)]; exact occurs_array _ _ xs
+  | .boolean xs, h => by
+    simp only [Tmpl.printAt, Tmpl.vars]; rw [map_shown_plain _ (by simpa [leafNamesPlain] using h)]; exact occurs_array _ _ xs
+  | .int w xs, h => by
+    simp only [Tmpl.printAt, Tmpl.vars]; rw [map_shown_plain _ (by simpa [leafNamesPlain] using h)]; exact occurs_array _ _ xs
+  | .uint w xs, h => by
+    simp only [Tmpl.printAt, Tmpl.vars]; rw [map_shown_plain _ (by simpa [leafNamesPlain] using h)]; exact occurs_array _ _ xs
+  | .float w xs, h => by
+    simp only [Tmpl.printAt, Tmpl.vars]; rw [map_shown_plain _ (by simpa [leafNamesPlain] using h)]; exact occurs_array _ _ xs
+  | .empty, _ => .nil _
+theorem printed_order_slots (level : Nat) : ∀ xs : Slots, leafNamesPlainS xs = true →
+    Occurs (xs.vars.map shown) (xs.printAt level)
+  | .nil, _ => .nil _
+  | .item t r, h => by
+    have ht : leafNamesPlain t = true := by
+      cases t <;> simp_all [leafNamesPlainS]
+    have hr : leafNamesPlainS r = true := by
+      cases t <;> simp_all [leafNamesPlainS]
+    have ihr := printed_order_slots level r hr
+    cases t with
+    | empty =>
+      simp only [Slots.vars, Slots.printAt, List.map_cons]
+      have h0 : shown [] = [] := by simp [shown, isEllipsis]
+      rw [h0]
+      have := Occurs.cons [] _ [] _ (ihr.prepend ((if Tmpl.empty.isList then Tmpl.printAt (level + 1) Tmpl.empty
+        else rep level [32, 32] ++ [32, 32] ++ Tmpl.printAt 0 Tmpl.empty) ++ [10]))
+      simpa using this
+    | list ys =>
+      simp only [Slots.vars, Slots.printAt, List.map_append, Tmpl.isList, if_true]
+      have := (printed_order (level + 1) (.list ys) ht).append (ihr.prepend [10])
+      simpa using this
+    | ascii s =>
+      simp only [Slots.vars, Slots.printAt, Tmpl.vars, List.map_nil, List.nil_append]
+      exact ihr.prepend _
+    | asciiVar n mn mx =>
+      simp only [Slots.vars, Slots.printAt, List.map_append, Tmpl.isList]
+      have := ((printed_order 0 (.asciiVar n mn mx) ht).prepend (rep level [32, 32] ++ [32, 32])).append (ihr.prepend [10])
+      simpa using this
+    | binary zs =>
+      simp only [Slots.vars, Slots.printAt, List.map_append, Tmpl.isList]
+      have := ((printed_order 0 (.binary zs) ht).prepend (rep level [32, 32] ++ [32, 32])).append (ihr.prepend [10])
+      simpa using this
+    | boolean zs =>
+      simp only [Slots.vars, Slots.printAt, List.map_append, Tmpl.isList]
+      have := ((printed_order 0 (.boolean zs) ht).prepend (rep level [32, 32] ++ [32, 32])).append (ihr.prepend [10])
+      simpa using this
+    | int w zs =>
+      simp only [Slots.vars, Slots.printAt, List.map_append, Tmpl.isList]
+      have := ((printed_order 0 (.int w zs) ht).prepend (rep level [32, 32] ++ [32, 32])).append (ihr.prepend [10])
+      simpa using this
+    | uint w zs =>
+      simp only [Slots.vars, Slots.printAt, List.map_append, Tmpl.isList]
+      have := ((printed_order 0 (.uint w zs) ht).prepend (rep level [32, 32] ++ [32, 32])).append (ihr.prepend [10])
+      simpa using this
+    | float w zs =>
+      simp only [Slots.vars, Slots.printAt, List.map_append, Tmpl.isList]
+      have := ((printed_order 0 (.float w zs) ht).prepend (rep level [32, 32] ++ [32, 32])).append (ihr.prepend [10])
+      simpa using this
+  | .var n r, h => by
+    have ihr := printed_order_slots level r (by simpa [leafNamesPlainS] using h)
+    simp only [Slots.vars, Slots.printAt, List.map_cons]
+    have := Occurs.cons (shown n) _ (rep level [32, 32] ++ [32, 32]) _ (ihr.prepend [10])
+    simpa [shown] using this
+end
+
+theorem valid_not_ellipsis (n : Name) (h : isValidVarName n = true) : isEllipsis n = false := by
+  cases n with
+  | nil => rfl
+  | cons b r =>
+    simp only [isValidVarName, Bool.and_eq_true] at h
+    have hb : b ≠ 46 := by
+      intro hb; subst hb
+      have := h.1
+      simp [isIdentStartB, isAlphaB, isUpperB, isLowerB] at this
+    unfold isEllipsis
+    split
+    · rename_i heq
+      injection heq with h1 _
+      exact absurd h1 hb
+    · rfl
+
+theorem slotsOk_plain {α} (p : α → Bool) (xs : List (Slot α)) (h : slotsOk p xs = true) :
+    (slotVars xs).all (fun n => !isEllipsis n) = true := by
+  induction xs with
+  | nil => rfl
+  | cons x r ih =>
+    have hx := C12.slotsOk_cons p x r h
+    cases x with
+    | val a => simpa [slotVars] using ih hx.2
+    | var n =>
+      simp only [slotVars, List.all_cons, Bool.and_eq_true, Bool.not_eq_true']
+      exact ⟨valid_not_ellipsis n hx.1, ih hx.2⟩
+
+mutual
+theorem wf_leafNamesPlain : ∀ t : Tmpl, t.wf = true → leafNamesPlain t = true
+  | .list xs, h => by
+    simp only [Tmpl.wf, Bool.and_eq_true] at h
+    simpa [leafNamesPlain] using wf_leafNamesPlainS xs h.1.1.2
+  | .ascii _, _ => rfl
+  | .asciiVar n _ _, h => by
+    simp only [Tmpl.wf, Bool.and_eq_true] at h
+    simp [leafNamesPlain, valid_not_ellipsis n h.1.1.1]
+  | .binary xs, h => by simp only [Tmpl.wf, Bool.and_eq_true] at h; exact slotsOk_plain _ xs h.2
+  | .boolean xs, h => by simp only [Tmpl.wf, Bool.and_eq_true] at h; exact slotsOk_plain _ xs h.2
+  | .int _ xs, h => by simp only [Tmpl.wf, Bool.and_eq_true] at h; exact slotsOk_plain _ xs h.2
+  | .uint _ xs, h => by simp only [Tmpl.wf, Bool.and_eq_true] at h; exact slotsOk_plain _ xs h.2
+  | .float _ xs, h => by simp only [Tmpl.wf, Bool.and_eq_true] at h; exact slotsOk_plain _ xs h.2
+  | .empty, _ => rfl
+theorem wf_leafNamesPlainS : ∀ xs : Slots, xs.wfAll = true → leafNamesPlainS xs = true
+  | .nil, _ => rfl
+  | .item t r, h => by
+    simp only [Slots.wfAll, Bool.and_eq_true] at h
+    simp [leafNamesPlainS, wf_leafNamesPlain t h.1, wf_leafNamesPlainS r h.2]
+  | .var _ r, h => by
+    simp only [Slots.wfAll] at h
+    simpa [leafNamesPlainS] using wf_leafNamesPlainS r h
+end
+
+/-- for every tree the API can build: each unfilled variable is listed once and the list occurs
+in order in the printed form -/
+theorem listing_matches_print (level : Nat) (t : Tmpl) (hw : t.wf = true) :
+    nodupNames t.vars = true ∧ Occurs (t.vars.map shown) (t.printAt level) :=
+  ⟨vars_nodup t hw, printed_order level t (wf_leafNamesPlain t hw)⟩
 
 /-! ### non-vacuity -/
 example : Tmpl.wf (.list (.item (.uint 1 [.val 1, .var [120]]) (.var [121] .nil))) = true := by decide
